@@ -37,6 +37,7 @@ typedef struct {
   word w;
   mzd_t *M;      /* the operand handed to the library (window or owned) */
   mzd_t *parent; /* owning matrix (== M when owned) */
+  mzd_t *mid;    /* intermediate window when the operand is a window of a window (else NULL) */
   word *snap;    /* snapshot of the parent's allocation */
   size_t snapwords;
   int ro, wo;
@@ -115,7 +116,14 @@ static int parse_args(int start) {
         if (!xs_state) xs_state = 1;
         for (rci_t x = 0; x < a->parent->nrows; x++)
           for (wi_t y = 0; y < a->parent->width; y++) mzd_row(a->parent, x)[y] = xs_next();
-        a->M = mzd_init_window(a->parent, ro, 64 * wo, ro + r, 64 * wo + c);
+        if (seed % 3 == 1 && r > 0 && (c % 64) != 0) {
+          /* a view of a view: the intermediate window is wider inside the same last word (and one row taller when the
+             parent has a row to spare); the operand is the same block of the parent, so the model line is unchanged */
+          int d = 1 + (int)((seed >> 3) % (unsigned long long)(64 * width - c));
+          a->mid = mzd_init_window(a->parent, ro, 64 * wo, ro + r + (er > 0 ? 1 : 0), 64 * wo + c + d);
+          a->M = mzd_init_window(a->mid, 0, 0, r, c);
+        } else
+          a->M = mzd_init_window(a->parent, ro, 64 * wo, ro + r, 64 * wo + c);
         a->ro = ro;
         a->wo = wo;
         a->windowed = 1;
@@ -254,6 +262,7 @@ static void free_args(void) {
     arg_t *a = &args[k];
     if (a->kind == 2) {
       if (a->windowed) mzd_free(a->M);
+      if (a->mid) mzd_free(a->mid);
       mzd_free(a->parent);
       real_free(a->snap);
     } else if (a->kind == 3)
